@@ -116,6 +116,9 @@ func lexSpec(s string) ([]tok, error) {
 			for j < len(s) && (s[j] == '_' || unicode.IsLetter(rune(s[j])) || unicode.IsDigit(rune(s[j]))) {
 				j++
 			}
+			if strings.HasPrefix(s[j:], "@pre") {
+				j += 4
+			}
 			out = append(out, tok{"id", s[i:j]})
 			i = j
 		default:
@@ -490,6 +493,7 @@ type Clause struct {
 type LoopSpec struct {
 	Invariants []Clause
 	Decreases  *Clause
+	Asserts    []Clause // lemmas proved at the back edge (then assumed) before the invariants are re-established
 }
 
 type Contract struct {
@@ -518,9 +522,11 @@ type SpecFunc struct {
 	Text    string
 	Rec     bool   // recursive definition: declared uninterpreted, unfolded once at every use
 	RecVar  string // the int parameter the recursion descends on
+	Opaque  bool   // declared uninterpreted; the definition is unfolded at ground occurrences only
 }
 
 type Axiom struct {
+	Lemma   bool // proved by the engine (negation is a ground query), then used like an axiom
 	Name    string
 	E       SExpr
 	PkgPath string
@@ -539,7 +545,7 @@ func newSpecSet() *SpecSet {
 }
 
 var clauseKW = map[string]bool{"func": true, "method": true, "closure": true, "requires": true, "ensures": true, "modifies": true,
-	"decreases": true, "loop": true, "trusted": true, "pure": true, "noinline": true, "spec": true, "axiom": true, "package": true, "assert": true}
+	"decreases": true, "loop": true, "trusted": true, "pure": true, "noinline": true, "spec": true, "axiom": true, "lemma": true, "package": true, "assert": true}
 
 // parseContractLines parses the "//@" lines of one file. pkgPath is the Go package whose scope resolves type names.
 func (ss *SpecSet) parseContractLines(lines []string, pkgPath, file string) error {
@@ -587,10 +593,14 @@ func (ss *SpecSet) parseContractLines(lines []string, pkgPath, file string) erro
 			}
 			ss.Contracts[k] = cur
 		case "spec":
-			rec := false
+			rec, opaque := false, false
 			if strings.HasPrefix(rest, "rec ") {
 				rec = true
 				rest = strings.TrimSpace(strings.TrimPrefix(rest, "rec "))
+			}
+			if strings.HasPrefix(rest, "opaque ") {
+				opaque = true
+				rest = strings.TrimSpace(strings.TrimPrefix(rest, "opaque "))
 			}
 			f, err := parseSpecFunc(rest)
 			if err != nil {
@@ -602,13 +612,14 @@ func (ss *SpecSet) parseContractLines(lines []string, pkgPath, file string) erro
 				}
 			}
 			f.PkgPath = pkgPath
+			f.Opaque = opaque && f.Body != nil
 			if _, dup := ss.Funcs[f.Name]; dup {
 				return fmt.Errorf("%s: duplicate spec function %s", file, f.Name)
 			}
 			ss.Funcs[f.Name] = f
 			ss.FuncOrder = append(ss.FuncOrder, f.Name)
 			cur = nil
-		case "axiom":
+		case "axiom", "lemma":
 			name, body := rest, rest
 			if i := strings.Index(rest, ":"); i > 0 && !strings.ContainsAny(rest[:i], " (") {
 				name, body = rest[:i], strings.TrimSpace(rest[i+1:])
@@ -617,7 +628,7 @@ func (ss *SpecSet) parseContractLines(lines []string, pkgPath, file string) erro
 			if err != nil {
 				return err
 			}
-			ss.Axioms = append(ss.Axioms, &Axiom{Name: name, E: c.E, PkgPath: pkgPath, Text: body})
+			ss.Axioms = append(ss.Axioms, &Axiom{Name: name, E: c.E, PkgPath: pkgPath, Text: body, Lemma: kw == "lemma"})
 			cur = nil
 		default:
 			if cur == nil {
@@ -707,6 +718,8 @@ func (ss *SpecSet) parseContractLines(lines []string, pkgPath, file string) erro
 					ls.Invariants = append(ls.Invariants, c)
 				case "decreases":
 					ls.Decreases = &c
+				case "assert":
+					ls.Asserts = append(ls.Asserts, c)
 				default:
 					return fmt.Errorf("%s: bad loop clause %q", file, st)
 				}
